@@ -78,7 +78,8 @@ pub fn dispatch(name: &str, args: &[&str]) -> Option<String> {
             let base = build_tree(args[1]);
             let dir: &'static str = Box::leak(format!("{}/www", base).into_boxed_str());
             let route = unhex_str(args[2]);
-            let uri = unhex_str(args[3]);
+            // @BASE@ stands for the absolute path of the temporary base directory (only the harness knows it)
+            let uri = unhex_str(args[3]).replace("@BASE@", &base);
             let req = request(uri);
             Some(match args[0] {
                 "serve_dir" => {
